@@ -19,17 +19,32 @@ def _on_alarm(signum, frame):
     raise Hang("operation did not return within the watchdog limit")
 
 
-def with_watchdog(fn, limit):
-    """Run fn() under a SIGALRM watchdog; raises Hang when it does not return within `limit` seconds."""
+def arm_watchdog(limit):
+    """Watchdog on *processor* time (`limit` seconds of this process' CPU - user and system -, SIGPROF) with a wall-clock cap of ten times as much
+    (SIGALRM): on a loaded machine a call that needs three seconds may take thirty; a call that sleeps or blocks is still stopped.
+    Returns a disarm() function."""
     import signal
 
-    old = signal.signal(signal.SIGALRM, _on_alarm)
-    signal.alarm(limit)
+    old_v = signal.signal(signal.SIGPROF, _on_alarm)
+    old_r = signal.signal(signal.SIGALRM, _on_alarm)
+    signal.setitimer(signal.ITIMER_PROF, limit)
+    signal.alarm(10 * limit)
+
+    def disarm():
+        signal.setitimer(signal.ITIMER_PROF, 0)
+        signal.alarm(0)
+        signal.signal(signal.SIGPROF, old_v)
+        signal.signal(signal.SIGALRM, old_r)
+    return disarm
+
+
+def with_watchdog(fn, limit):
+    """Run fn() under the watchdog; raises Hang when it does not return within `limit` seconds of processor time."""
+    disarm = arm_watchdog(limit)
     try:
         return fn()
     finally:
-        signal.alarm(0)
-        signal.signal(signal.SIGALRM, old)
+        disarm()
 
 
 def check_image(ctx, fmt, img, view, built, rng, **kw):
@@ -37,8 +52,7 @@ def check_image(ctx, fmt, img, view, built, rng, **kw):
     import signal
 
     limit = kw.pop("limit", 30)
-    old = signal.signal(signal.SIGALRM, _on_alarm)
-    signal.alarm(limit)
+    disarm = arm_watchdog(limit)
     try:
         return _check_image(ctx, fmt, img, view, built, rng, **kw)
     except Hang as e:
@@ -48,8 +62,7 @@ def check_image(ctx, fmt, img, view, built, rng, **kw):
         ctx.violation(a, {"format": fmt, "img": img, "profile": built.note, "error": str(e)})
         return False
     finally:
-        signal.alarm(0)
-        signal.signal(signal.SIGALRM, old)
+        disarm()
 
 
 def _check_image(ctx, fmt, img, view, built: disk.Built, rng: random.Random, *, full: bool, attrs: dict,
